@@ -80,6 +80,9 @@ type file struct {
 type tree map[string]file
 
 // Mod is one "user" modification of the worktree made before the operation.
+// sameLenToken as Mod.Data of an "edit": replace the content by bytes of the same length.
+const sameLenToken = "\x01same-length"
+
 type Mod struct {
 	Kind  string `json:"kind"`
 	Path  string `json:"path"`
@@ -805,6 +808,13 @@ func (w *world) applyMod(m Mod) {
 		if n.Exec {
 			mode = 0o755
 		}
+		if data == sameLenToken {
+			b := []byte(n.Data)
+			for i := range b {
+				b[i] ^= 1 // stays printable enough; same length, every byte differs
+			}
+			data = string(b)
+		}
 		if n.Data == data {
 			data += "+"
 		}
@@ -1010,6 +1020,15 @@ func errKind(err error) string {
 var universe = []string{"a.txt", "b.txt", "dir/c.txt", "dir/sub/d.txt", "e.sh", "z/y/x.txt", "dir/e.txt", "p", "q/r", "deep/1/2/3/4/f.txt", "Readme.md", "link", "sub", "n.txt", "dir/sub/k/m.txt"}
 
 func genContent(r *core.Rand, p string) string {
+	// Sizes matter: go-git decides "unchanged" from (size, mtime, mode) before it hashes. A tenth of the contents are
+	// empty (a stat-less index entry records size 0) and three tenths have a width that depends on the path only, so
+	// that two versions of one path often have EQUAL size and different bytes.
+	switch k := r.Intn(10); {
+	case k == 0:
+		return ""
+	case k < 4:
+		return fmt.Sprintf("%s v%03d\n", p, r.Intn(1000))
+	}
 	return fmt.Sprintf("%s v%d\n%s", p, r.Intn(1000), hex.EncodeToString(r.Bytes(r.Intn(12))))
 }
 
@@ -1220,6 +1239,12 @@ func genMods(r *core.Rand, cur, tgt tree, n int) []Mod {
 		case k < 5:
 			m.Kind, m.Path = "edit", tracked()
 			m.Data = fmt.Sprintf("local edit %d\n", r.Intn(1000))
+			switch r.Intn(8) {
+			case 0:
+				m.Data = "" // truncated by the user
+			case 1, 2:
+				m.Data = sameLenToken // same length as the current content, different bytes
+			}
 			if f, ok := tgt[m.Path]; ok && r.Chance(1, 6) {
 				m.Data = f.Data // the user's content equals the target's
 			}
@@ -1230,6 +1255,9 @@ func genMods(r *core.Rand, cur, tgt tree, n int) []Mod {
 		case k < 15:
 			m.Kind = "untracked"
 			m.Data = fmt.Sprintf("untracked %d\n", r.Intn(1000))
+			if r.Chance(1, 8) {
+				m.Data = "" // an empty stale file
+			}
 			switch r.Intn(7) {
 			case 0:
 				m.Path = r.Pick("untracked.txt", "un/tracked.txt", "dir/untracked.tmp", "zz/deep/er/u.txt")
